@@ -558,7 +558,7 @@ def unit_operator_diag_offdiag(variant, timeout_ms=20000):
 # ==================================================================================================
 
 def unit_h_eval(kind, scalar_input, timeout_ms=20000):
-    """kind: 'zero' | 'scalar' | 'matrix' | 'immutable'"""
+    """kind: 'zero' | 'scalar' | 'matrix' | 'immutable' | 'ndarray' | 'sparse'"""
     node = frontend.find("block_diagonalization", "block_diagonalize/H_eval")
 
     def harness(eng):
@@ -579,7 +579,8 @@ def unit_h_eval(kind, scalar_input, timeout_ms=20000):
                     return Builtin("applyfunc", af)
                 return super().m_getattr(e, name)
         value = {"zero": ZERO, "scalar": Val("expr", ("Expr",)), "matrix": Mat("matrix", ("MatrixBase", "Matrix", "MutableDenseMatrix")),
-                 "immutable": Mat("immutable_matrix", ("MatrixBase", "Expr", "ImmutableMatrix", "ImmutableDenseMatrix"))}[kind]
+                 "immutable": Mat("immutable_matrix", ("MatrixBase", "Expr", "ImmutableMatrix", "ImmutableDenseMatrix")),
+                 "ndarray": Val("c_number_array", ("ndarray",)), "sparse": Val("c_number_sparse_array", ("sparray",))}[kind]
 
         class Horig(Model):
             def m_getitem(s, e, key):
@@ -587,6 +588,10 @@ def unit_h_eval(kind, scalar_input, timeout_ms=20000):
                 return value
 
         def sym_matrix(e, rows):
+            if rows is value and kind == "ndarray":
+                return Mat("matrix-of-the-array", ("MatrixBase", "Matrix", "MutableDenseMatrix"))
+            if kind == "sparse" and isinstance(rows, T) and rows.head == ".toarray" and rows.args[0] is value:
+                return Mat("matrix-of-the-densified-array", ("MatrixBase", "Matrix", "MutableDenseMatrix"))
             r = e.as_seq(rows)
             inner = e.as_seq(r.items[0])
             if len(r.items) == 1 and len(inner.items) == 1:
@@ -597,6 +602,8 @@ def unit_h_eval(kind, scalar_input, timeout_ms=20000):
         nof_calls = []
         eng.globals.update({"zero": ZERO,
                             "sympy": Namespace("sympy", {"MatrixBase": TypeObj("MatrixBase"), "Matrix": MatrixCls, "Expr": TypeObj("Expr")}),
+                            "np": Namespace("np", {"ndarray": TypeObj("ndarray")}),
+                            "sparse": Namespace("sparse", {"issparse": Builtin("issparse", lambda e, x: isinstance(x, Val) and "sparray" in x.kinds)}),
                             "NumberOrderedForm": Namespace("NumberOrderedForm", {"from_expr": Builtin("from_expr", lambda e, x, ops=None: (nof_calls.append((x, ops)), T("from_expr", x, ops))[1])})})
         env = Env(None, {"H_orig": Horig(), "scalar_input": scalar_input, "operators": OPS})
         idx = STup([SI(eng.fresh("i")), SI(eng.fresh("j")), SI(eng.fresh("n"))])
@@ -615,6 +622,9 @@ def unit_h_eval(kind, scalar_input, timeout_ms=20000):
             src = res.args[0]
             if kind == "scalar":
                 eng.oblige("scalar-term-wrapped-into-a-1x1-matrix", z3.BoolVal(scalar_input and src.head == "wrapped-1x1"), detail=repr(src))
+            elif kind in ("ndarray", "sparse"):
+                eng.oblige("numeric-term-converted-to-the-sympy-matrix-of-its-entries",
+                           z3.BoolVal(src.head == ("matrix-of-the-array" if kind == "ndarray" else "matrix-of-the-densified-array")), detail=repr(src))
             else:
                 eng.oblige("matrix-term-converted-entry-wise-as-it-is", z3.BoolVal(src is value), detail=repr(src))
     return run_unit(f"block_diagonalization:block_diagonalize/H_eval[{kind},scalar_input={scalar_input}]", harness,
